@@ -108,12 +108,17 @@ def _concat(*args):
     return "".join(str(a) for a in args)
 
 
+def _int_or_real(v):
+    # SQLite integers are 64-bit: larger magnitudes stay REAL, as the engine's own arithmetic does
+    return v if -2 ** 63 <= v < 2 ** 63 else float(v)
+
+
 def _floor(x):
-    return None if x is None else math.floor(x)
+    return None if x is None else _int_or_real(math.floor(x))
 
 
 def _ceil(x):
-    return None if x is None else math.ceil(x)
+    return None if x is None else _int_or_real(math.ceil(x))
 
 
 def _regexp(pattern, s):
